@@ -767,7 +767,12 @@ func (h *histCtx) maskProbe() {
 	h.r.Count("checked/update-mask", 1)
 	h.r.Distinct(fmt.Sprintf("%s|maskprobe|%s|%s|%d", h.t.base, a.Name(), b.Name(), followed))
 	if followed == 2 {
-		h.violate("update-mask-ignored", fmt.Sprintf("two Updates with update_mask [%s] also carried new values for field %s; the stored %s took the request's value both times, i.e. update_mask is not honoured", a.Name(), b.Name(), b.Name()))
+		// The statement of C14 says nothing about what update_mask selects (that is C05's subject, for the core
+		// resources), so a server that does not honour it is recorded as an observation, not as a violation.
+		h.r.Count("observed/update-mask-not-honoured/"+h.t.base, 1)
+		if h.r.WantSample("update-mask-not-honoured/" + h.t.base) {
+			h.r.Sample("update-mask-not-honoured/"+h.t.base, fmt.Sprintf("two Updates with update_mask [%s] also carried new values for field %s; the stored %s took the request's value both times", a.Name(), b.Name(), b.Name()))
+		}
 	}
 }
 
